@@ -624,6 +624,7 @@ class Solver:
         logging.debug("Value iteration for total rewards:")
         logging.debug("-"*80)
         i = 0
+        _verif_emit("RewardSweep", sweep=0, state_list=self.state_list)
         while diff > self.threshold:
             logging.debug(f"iteration {i}")
             i += 1
@@ -642,6 +643,7 @@ class Solver:
                 state.expected_reach_min_rewards = expected_reach_min_rewards
             logging.debug("-"*80)
             diff = max_diff
+            _verif_emit("RewardSweep", sweep=i, state_list=self.state_list)
 
         if logging.getLogger().getEffectiveLevel() == logging.DEBUG:
             logging.debug(f"iteration {i}")
